@@ -312,6 +312,11 @@ def simplify(n):
             out[k] = simplify(v)
         else:
             out[k] = v
+    # vec![a, b] expands to box_assume_init_into_vec_unsafe(write_box_via_move(new_uninit(), [a, b])): the array
+    if out.get("k") == "call" and (out.get("f") or "").endswith("box_assume_init_into_vec_unsafe"):
+        for x in walk(out):
+            if x.get("k") == "array":
+                return x
     if out.get("k") == "call" and (out.get("f") or "") in ("std::hint::must_use", "std::fmt::format",
                                                            "alloc::fmt::format"):
         a = out.get("args") or []
